@@ -6,6 +6,8 @@ HERE = os.path.dirname(os.path.dirname(os.path.abspath(__file__)))
 sys.path.insert(0, HERE)
 
 ID = 'C08'
+# modules whose functions must not keep state between calls (pyvc.statecheck.hidden_state_census, syntactic)
+HIDDEN_STATE_MODULES = ['src.ir.type_utils', 'src.ir.types']
 LEVEL = 'proof'
 SIDECARS = ['types_sub', 'types_ctor', 'cfg_common', 'inst_helpers']
 FUNCTIONS = [
@@ -32,10 +34,36 @@ ASSUMPTIONS = [
 NOT_UNDER_CONTRACT = ['src.ir.type_utils.update_type_var_bound_rec', 'src.ir.type_utils.instantiate_parameterized_function',
                       'src.ir.type_utils.choose_type']
 
-try:
-    from props import C08_bounded as _b
-    bounded = _b.bounded
-    replay_search = _b.replay_search
-    replay = _b.replay
-except ImportError:
-    pass
+def custom_proof(tier):
+    """the global switches reach cfg: symbolic execution of the configuration block of src/args.py (z3)"""
+    from pyvc import statecheck
+    return statecheck.switch_wiring_obligations(os.environ.get('HEPH_REPO', '/repo'))[:2]
+
+
+from props import C08_bounded as _b   # noqa: E402
+replay_search = _b.replay_search
+
+
+def bounded(tier, seed, stop_first=False):
+    """the instantiation harness, plus the reference substitution of C07 (specs/subst_ref.py): the bound an argument is
+    checked against is the declared bound AFTER SUBSTITUTING the other arguments, so a substitution that misses an
+    occurrence breaks C08 as well"""
+    r = _b.bounded(tier, seed, stop_first)
+    try:
+        from props import C07 as _c07
+        sub = _c07.bounded('quick', seed)
+        r['evaluations'] = r.get('evaluations', 0) + sub.get('evaluations', 0)
+        for v in sub.get('violations', []):
+            v = dict(v, check=v['check'].replace('bounded[', 'bounded[substitution:'))
+            r.setdefault('violations', []).append(v)
+    except Exception as e:      # the C07 reference is optional here
+        r.setdefault('notes', []).append('substitution reference not run: %r' % (e,))
+    return r
+
+
+def replay(payload):
+    fi = payload.get('failing_input') or {}
+    if 'bounded[substitution:' in str(fi.get('check', '')):
+        from props import C07 as _c07
+        return _c07.replay(dict(payload, failing_input=dict(fi, check=fi['check'].replace('bounded[substitution:', 'bounded['))))
+    return _b.replay(payload)
